@@ -799,6 +799,10 @@ func (x *side) cancelWaiting() int {
 	return len(l)
 }
 
+// watchdog for calls that should return at once: generous, the machine may be loaded; an expired
+// watchdog is reported as "stuck" with "watchdog": true (undecided, not a verdict)
+const watchdog = 20 * time.Second
+
 func waitDone(ch chan struct{}, d time.Duration) bool {
 	select {
 	case <-ch:
@@ -820,8 +824,8 @@ func (x *side) probeFailed() {
 		x.doCall("m", "updaddr")
 		x.doCall("m", "send")
 	}()
-	if !waitDone(done, 3*time.Second) {
-		x.lg.Add(vt.Ev{"ev": "stuck", "blocked": "probe of a failed session"})
+	if !waitDone(done, watchdog) {
+		x.lg.Add(vt.Ev{"ev": "stuck", "watchdog": true, "blocked": "probe of a failed session"})
 		return
 	}
 	x.inject("pmsg")
@@ -831,10 +835,10 @@ func (x *side) probeFailed() {
 		register(x.name + ".s")
 		x.serveProc()
 	}()
-	if !waitDone(x.serveDone, 3*time.Second) {
+	if !waitDone(x.serveDone, watchdog) {
 		x.inject("eof")
-		if !waitDone(x.serveDone, 3*time.Second) {
-			x.lg.Add(vt.Ev{"ev": "stuck", "blocked": "Serve of a failed session"})
+		if !waitDone(x.serveDone, watchdog) {
+			x.lg.Add(vt.Ev{"ev": "stuck", "watchdog": true, "blocked": "Serve of a failed session"})
 		}
 	}
 }
@@ -878,8 +882,8 @@ func runSequential(sc Scenario) result {
 				case <-x.serveDone:
 				default:
 					x.inject("eof")
-					if !waitDone(x.serveDone, 3*time.Second) {
-						x.lg.Add(vt.Ev{"ev": "stuck", "blocked": "Serve after the peer went away"})
+					if !waitDone(x.serveDone, watchdog) {
+						x.lg.Add(vt.Ev{"ev": "stuck", "watchdog": true, "blocked": "Serve after the peer went away"})
 						note = "stuck"
 					}
 				}
@@ -919,8 +923,8 @@ func runSequential(sc Scenario) result {
 				register(x.name + "." + p)
 				x.doCall(p, st.K)
 			}()
-			if wait && !waitDone(done, 3*time.Second) {
-				x.lg.Add(vt.Ev{"ev": "stuck", "blocked": "call " + st.K})
+			if wait && !waitDone(done, watchdog) {
+				x.lg.Add(vt.Ev{"ev": "stuck", "watchdog": true, "blocked": "call " + st.K})
 				note = "stuck"
 			}
 		}
@@ -941,7 +945,7 @@ func runSequential(sc Scenario) result {
 				register(x.name + ".m")
 				x.doCall("m", "close")
 			}()
-			waitDone(done, 3*time.Second)
+			waitDone(done, watchdog)
 			quiesce()
 		}
 	}
@@ -951,8 +955,8 @@ func runSequential(sc Scenario) result {
 		}
 		if !waitDone(x.serveDone, 500*time.Millisecond) {
 			x.inject("eof") // the peer never answered the closing tag: its transport goes away
-			if !waitDone(x.serveDone, 3*time.Second) {
-				x.lg.Add(vt.Ev{"ev": "stuck", "blocked": "Serve did not return"})
+			if !waitDone(x.serveDone, watchdog) {
+				x.lg.Add(vt.Ev{"ev": "stuck", "watchdog": true, "blocked": "Serve did not return"})
 				note = "stuck"
 			}
 		}
